@@ -29,6 +29,12 @@ func (g *GenericPlanner) WrapProcess(ctx *shared.PlannerContext,
 			}()
 		}
 		defer close(out)
+		defer func() {
+			go func() {
+				for range _in {
+				}
+			}()
+		}()
 		defer shared.TamePanic(out)
 		for entries := range _in {
 			for i := range entries {
